@@ -819,8 +819,12 @@ def check_C11(res, tier, seed):
         build_harness()
         trace = os.path.join(d, "t.ndjson")
         scn = os.path.join(d, "t.scn.ndjson")
-        sh([PVH, "interrupt", "--seed", str(seed), "--tier", tier, "--count", str(n(tier, 60, 400)),
-            "--maxk", str(n(tier, 30, 120)), "--out", trace, "--scn", scn], timeout=3000)
+        # (the thorough tier multiplies the number of base scenarios and of interruption points, but
+        #  keeps the model sizes of the quick tier: with the larger models of the thorough generators
+        #  single events made the oracle sets of TLC explode - TLC then aborts or runs for hours, seen
+        #  in three thorough runs; the poll enumeration, not the model size, is what C11 is about)
+        sh([PVH, "interrupt", "--seed", str(seed), "--tier", "quick", "--count", str(n(tier, 60, 240)),
+            "--maxk", str(n(tier, 30, 60)), "--out", trace, "--scn", scn], timeout=3000)
         return trace, scn
     out, counts = tv_part(res, [], 0, seed, tier, "interrupt", adopt=adopt, recorder=rec,
                           min_events={"Return": 200})
